@@ -92,6 +92,68 @@ func hostileRepo(g *kit.Gen) *kit.Repo {
 	return r
 }
 
+// c09Spice adds the writer-side corners that only a ShardBuilder caller can reach:
+// documents that are rejected inside ShardBuilder.Add (caller-set skip reason, or a
+// NUL byte found by Add itself) although they carry symbols and symbol metadata,
+// followed by an accepted document with symbols; and more than 256 distinct languages
+// in one shard (language codes are 16 bit). It returns the repository to hand to the
+// builder: a copy in which the NUL-byte documents carry no skip reason, so that Add has
+// to find it.
+func c09Spice(g *kit.Gen, r *kit.Repo) *kit.Repo {
+	R := g.R
+	used := map[string]bool{}
+	for _, d := range r.Docs {
+		used[d.Name] = true
+	}
+	symDoc := func() *kit.Doc {
+		d := g.Doc(r, used)
+		d.Content = "fn alpha beta\nvar gamma = alpha\n" + g.Text(20+R.IntN(40))
+		d.Symbols = []kit.Sym{{Start: 3, End: 8, Kind: "function", Parent: "pkg", ParentKind: "package"}, {Start: 18, End: 23, Kind: "variable"}}
+		return d
+	}
+	byAdd := map[*kit.Doc]bool{}
+	if R.IntN(3) == 0 {
+		for k := 0; k < 1+R.IntN(2); k++ {
+			d := symDoc()
+			switch R.IntN(3) {
+			case 0: // the caller says so
+				d.Skip = []string{"toolarge", "toosmall", "binary", "trigrams"}[R.IntN(4)]
+			default: // Add finds the NUL byte
+				d.Content += "\x00" + g.Text(5)
+				d.Skip = "binary"
+				byAdd[d] = true
+			}
+			d.Marker = ix.SkipExplanation[d.Skip]
+			// somewhere in the middle, and an accepted document with symbols after it
+			at := R.IntN(len(r.Docs) + 1)
+			r.Docs = append(r.Docs[:at], append([]*kit.Doc{d}, r.Docs[at:]...)...)
+		}
+		r.Docs = append(r.Docs, symDoc())
+	}
+	if R.IntN(8) == 0 {
+		n := 257 + R.IntN(80)
+		for i := 0; i < n; i++ {
+			d := g.Doc(r, used)
+			d.Content = fmt.Sprintf("language doc %d\n", i)
+			d.Symbols = nil
+			d.Language = fmt.Sprintf("L%03d", i)
+			r.Docs = append(r.Docs, d)
+		}
+	}
+	plain := *r
+	plain.Docs = nil
+	for _, d := range r.Docs {
+		if byAdd[d] {
+			c := *d
+			c.Skip, c.Marker = "", ""
+			plain.Docs = append(plain.Docs, &c)
+		} else {
+			plain.Docs = append(plain.Docs, d)
+		}
+	}
+	return &plain
+}
+
 func crcISO(b []byte) []byte {
 	h := crc64.New(crc64.MakeTable(crc64.ISO))
 	h.Write(b)
@@ -136,7 +198,7 @@ func TestVerif_C09(t *testing.T) {
 			switch mode {
 			case "shardbuilder":
 				r := hostileRepo(g)
-				p, err := ix.BuildSimple(dir, r)
+				p, err := ix.BuildSimple(dir, c09Spice(g, r))
 				if err != nil {
 					rec.Violation("write error/shardbuilder/"+kit.MsgClass(err.Error()), err.Error(), map[string]any{"corpus": ix.Dump(&kit.Corpus{Repos: []*kit.Repo{r}})})
 					return
@@ -172,11 +234,13 @@ func TestVerif_C09(t *testing.T) {
 				rec.Count("builder_shards", int64(len(paths)))
 				c09ReadBack(rec, mode, paths, []*kit.Repo{r})
 			case "merge":
-				var rs []*kit.Repo
+				var rs, handed []*kit.Repo
 				for k := 0; k < 2+g.R.IntN(3); k++ {
-					rs = append(rs, hostileRepo(g))
+					r := hostileRepo(g)
+					rs = append(rs, r)
+					handed = append(handed, c09Spice(g, r))
 				}
-				p, err := ix.BuildCompound(dir, rs)
+				p, err := ix.BuildCompound(dir, handed)
 				if err != nil {
 					rec.Violation("write error/merge/"+kit.MsgClass(err.Error()), err.Error(), map[string]any{"corpus": ix.Dump(&kit.Corpus{Repos: rs})})
 					return
